@@ -1,0 +1,49 @@
+//go:build verif
+
+// Contracts for deductive verification (comment-only; read by /verif/govc, never compiled into the product).
+
+package local
+
+// C20: configuration lookups return the most specific existing entry
+
+//@ ghost pure func EQ(c string, rt apricotpb.RunType, role string, key string) bool =
+//@     cfgbackend.E(componentcfg.absOf(c, rt, role, key))
+
+//@ ghost pure func isQ(q *componentcfg.Query, c string, rt apricotpb.RunType, role string, key string) bool =
+//@     q != nil && q.Component == c && q.RunType == rt && q.RoleName == role && q.EntryKey == key
+
+//@ func (s *Service) queryToAbsPath(query *componentcfg.Query) (absolutePath string, err error)
+//@   property C20
+//@   opt strings=uf
+//@   pure
+//@   requires s != nil
+//@   ensures query != nil ==> absolutePath == componentcfg.absOf(query.Component, query.RunType, query.RoleName, query.EntryKey)
+//@   ensures query != nil ==> (err == nil <==> EQ(query.Component, query.RunType, query.RoleName, query.EntryKey))
+
+// The four-step fallback, for all 16 existence patterns at once (symbolic): the result is the first existing of
+// (rt, role), (ANY, role), (rt, any), (ANY, any); none => error and nil. A resolved path always exists.
+//@ func (s *Service) resolveComponentQuery(query *componentcfg.Query) (resolved *componentcfg.Query, err error)
+//@   property C20
+//@   opt strings=uf
+//@   modifies nothing
+//@   requires s != nil && query != nil
+//@   ensures old(EQ(query.Component, query.RunType, query.RoleName, query.EntryKey)) ==>
+//@       err == nil && isQ(resolved, old(query.Component), old(query.RunType), old(query.RoleName), old(query.EntryKey))
+//@   ensures old(!EQ(query.Component, query.RunType, query.RoleName, query.EntryKey) &&
+//@               EQ(query.Component, componentcfg.FALLBACK_RUNTYPE, query.RoleName, query.EntryKey)) ==>
+//@       err == nil && isQ(resolved, old(query.Component), componentcfg.FALLBACK_RUNTYPE, old(query.RoleName), old(query.EntryKey))
+//@   ensures old(!EQ(query.Component, query.RunType, query.RoleName, query.EntryKey) &&
+//@               !EQ(query.Component, componentcfg.FALLBACK_RUNTYPE, query.RoleName, query.EntryKey) &&
+//@               EQ(query.Component, query.RunType, componentcfg.FALLBACK_ROLENAME, query.EntryKey)) ==>
+//@       err == nil && isQ(resolved, old(query.Component), old(query.RunType), componentcfg.FALLBACK_ROLENAME, old(query.EntryKey))
+//@   ensures old(!EQ(query.Component, query.RunType, query.RoleName, query.EntryKey) &&
+//@               !EQ(query.Component, componentcfg.FALLBACK_RUNTYPE, query.RoleName, query.EntryKey) &&
+//@               !EQ(query.Component, query.RunType, componentcfg.FALLBACK_ROLENAME, query.EntryKey) &&
+//@               EQ(query.Component, componentcfg.FALLBACK_RUNTYPE, componentcfg.FALLBACK_ROLENAME, query.EntryKey)) ==>
+//@       err == nil && isQ(resolved, old(query.Component), componentcfg.FALLBACK_RUNTYPE, componentcfg.FALLBACK_ROLENAME, old(query.EntryKey))
+//@   ensures old(!EQ(query.Component, query.RunType, query.RoleName, query.EntryKey) &&
+//@               !EQ(query.Component, componentcfg.FALLBACK_RUNTYPE, query.RoleName, query.EntryKey) &&
+//@               !EQ(query.Component, query.RunType, componentcfg.FALLBACK_ROLENAME, query.EntryKey) &&
+//@               !EQ(query.Component, componentcfg.FALLBACK_RUNTYPE, componentcfg.FALLBACK_ROLENAME, query.EntryKey)) ==>
+//@       err != nil && resolved == nil
+//@   ensures err == nil ==> resolved != nil && EQ(resolved.Component, resolved.RunType, resolved.RoleName, resolved.EntryKey)
